@@ -15,7 +15,8 @@ EXPLANATION = ('Bounded stand-in (labelled bounded, not proof): modeMemoryPool_t
 TRUSTED = ['cbmc 6.11.0 C++ front end and SAT back end',
            'sorted-array std::set stub (capacity 5) ordered by the real comparator text; backing-buffer stub whose deletion '
            'replicates the accounting of ~modeBuffer_t (proved in C05); reference rings counted, not linked (C01)',
-           'range-for / auto / delete / io::stdout rewrite rules (must-fire)']
+           'range-for / auto / delete / io::stdout rewrite rules (must-fire)',
+           'stubs/tuple (std::tie of two lvalues, lexicographic <): included by the pool unit, used only if the comparator text is written with it (not on the current tree)']
 ASSUMPTIONS = ['the comparator\'s tie-break on object addresses is replaced by a tie-break on ghost object ids (must-fire rule): any total order on distinct objects is a valid implementation choice',
                'histories: <= 3 reservations + optional slice + releases, then one operation (bounded); request sizes < 2^8 (quick) / 2^9 (thorough); <= 2 reservations (quick) / <= 3 (thorough) before the operation',
                'alignments enumerated: quick {128 -> 8}; thorough {128->8, 4096->128}; the reserve operation always starts from <= 2 reservations (its group is the most expensive)',
